@@ -491,7 +491,9 @@ func runC08(c *Ctx) error {
 		someRoot := t.rows[len(t.rows)/2].Merkle
 		// pattern-like and near-miss keys: only an exact merkle root is a key
 		for _, k := range []string{"deadbeef", strings.Repeat("ab", 32), "x", "deadbeef", "x", "%", strings.Repeat("_", 64), someRoot[:12] + "%", "%" + someRoot[40:],
-			strings.ToUpper(someRoot), someRoot[:63]} {
+			strings.ToUpper(someRoot), someRoot[:63],
+			// keys that are only white space are keys like any other: unknown (seeded change C08-11)
+			"q:%20", "q:%09", "q:%0A", "q:%C2%A0", "q:%20%20%20", "q:%20" + someRoot, "q:" + someRoot + "%20"} {
 			if k == someRoot {
 				continue // an all-digit root has no upper-case variant
 			}
